@@ -61,9 +61,26 @@ func (vs *varStore) bindScriggoPackageVar(pkg *ast.Package, name string, index i
 	vs.scriggoPackageVarRefs[pkg][name] = index
 }
 
-func (vs *varStore) createScriggoPackageVar(pkg *ast.Package, global Global) int16 {
-	index := int16(len(vs.globals))
+// maxGlobalsCount is the maximum number of global and package-level variables:
+// the index of a variable is encoded as an int16 in the operands of the
+// GetVar, GetVarAddr and SetVar instructions.
+const maxGlobalsCount = 1 << 15 // 32768
+
+// addGlobal appends global to the globals and returns its index. It panics
+// with a LimitExceededError if the index cannot be encoded in the operands of
+// the GetVar, GetVarAddr and SetVar instructions.
+func (vs *varStore) addGlobal(global Global) int16 {
+	index := len(vs.globals)
+	if index == maxGlobalsCount {
+		fb := vs.emitter.fb
+		panic(newLimitExceededError(fb.fn.Pos, fb.path, "global variables count exceeded %d", maxGlobalsCount))
+	}
 	vs.globals = append(vs.globals, global)
+	return int16(index)
+}
+
+func (vs *varStore) createScriggoPackageVar(pkg *ast.Package, global Global) int16 {
+	index := vs.addGlobal(global)
 	if vs.scriggoPackageVarRefs[pkg] == nil {
 		vs.scriggoPackageVarRefs[pkg] = map[string]int16{}
 	}
@@ -83,7 +100,6 @@ func (vs *varStore) predefVarIndex(v *reflect.Value, typ reflect.Type, pkg, name
 	if index, ok := vs.predefVarRef[currFn][v]; ok {
 		return index
 	}
-	index := int16(len(vs.globals))
 	g := newGlobal(pkg, name, typ, reflect.Value{})
 	if v.IsValid() {
 		g.Value = *v
@@ -91,7 +107,7 @@ func (vs *varStore) predefVarIndex(v *reflect.Value, typ reflect.Type, pkg, name
 	if vs.predefVarRef[currFn] == nil {
 		vs.predefVarRef[currFn] = map[*reflect.Value]int16{}
 	}
-	vs.globals = append(vs.globals, g)
+	index := vs.addGlobal(g)
 	vs.predefVarRef[currFn][v] = index
 	return index
 }
